@@ -170,3 +170,77 @@ fn c13_resend_after_disconnect() {
     kani::cover!(true, "scenario executed");
     kani::cover!(wire == 1, "event was sent to the remote server");
 }
+
+// HARNESS: c05_client_event_received_once_with_sender
+// PROPS: C05 C06
+// TIER: quick
+// TIMEOUT: 1200
+// DRIVES: ClientEvent::receive_typed, ClientEvent::deserialize, RepliconServer::receive, postcard_utils::from_buf
+// BOUNDS: three messages on one client-event channel: [x] from client A, an EMPTY (malformed) message from client B, [y] from client A, with SYMBOLIC payload bytes x, y; real RepliconServer and Events<FromClient<E>>; unwind 6
+#[kani::proof]
+#[kani::unwind(6)]
+#[kani::stub(log::max_level, log_off)]
+#[kani::stub(<bytes::Bytes as core::ops::Drop>::drop, noop_bytes_drop)]
+fn c05_client_event_received_once_with_sender() {
+    let client_event = test_client_event();
+    let clients = [Entity::from_raw(100), Entity::from_raw(101)];
+    let payload: &'static [u8; 2] = Box::leak(Box::new(kani::any()));
+    let mut server = RepliconServer::default();
+    server.setup_client_channels(1);
+    server.set_running(true);
+    server.insert_received(clients[0], 0usize, Bytes::from_static(&payload[0..1]));
+    server.insert_received(clients[1], 0usize, Bytes::new());
+    server.insert_received(clients[0], 0usize, Bytes::from_static(&payload[1..2]));
+    let mut client_events = Events::<FromClient<TestEvent>>::default();
+    let registry = MaybeUninit::<AppTypeRegistry>::uninit();
+    // SAFETY: never read by the default deserializer.
+    let mut ctx = ServerReceiveCtx { type_registry: unsafe { registry.assume_init_ref() } };
+    unsafe { client_event.receive(&mut ctx, PtrMut::from(&mut client_events), &mut server) };
+    // Exactly one event per well-formed message, in arrival order, with the true sender; the
+    // malformed message is discarded without a panic and nothing is left in the store.
+    assert!(client_events.len() == 2);
+    let mut cursor = client_events.get_cursor();
+    let mut index = 0;
+    for event in cursor.read(&client_events) {
+        assert!(event.client == clients[0]);
+        assert!(event.event == TestEvent(payload[index]));
+        index += 1;
+    }
+    assert!(index == 2);
+    assert!(server.receive(0usize).count() == 0);
+    kani::cover!(payload[0] == 0xff && payload[1] == 0, "extreme payload bytes");
+    kani::cover!(payload[0] == payload[1], "identical payloads are two separate events");
+    core::mem::forget((client_events, server, client_event));
+}
+
+// HARNESS: c06_client_event_any_bytes
+// PROPS: C06
+// TIER: quick
+// TIMEOUT: 1200
+// DRIVES: ClientEvent::receive_typed, ClientEvent::deserialize, RepliconServer::receive, postcard_utils::from_buf
+// BOUNDS: EVERY byte string of length 0..=3 on the channel of a client event with a one-byte payload (default deserializer), from any connected client; unwind 6
+#[kani::proof]
+#[kani::unwind(6)]
+#[kani::stub(log::max_level, log_off)]
+#[kani::stub(<bytes::Bytes as core::ops::Drop>::drop, noop_bytes_drop)]
+fn c06_client_event_any_bytes() {
+    let client_event = test_client_event();
+    let data: &'static [u8; 3] = Box::leak(Box::new(kani::any()));
+    let len: usize = kani::any();
+    kani::assume(len <= 3);
+    let mut server = RepliconServer::default();
+    server.setup_client_channels(1);
+    server.set_running(true);
+    server.insert_received(Entity::from_raw(100), 0usize, Bytes::from_static(&data[..len]));
+    let mut client_events = Events::<FromClient<TestEvent>>::default();
+    let registry = MaybeUninit::<AppTypeRegistry>::uninit();
+    // SAFETY: never read by the default deserializer.
+    let mut ctx = ServerReceiveCtx { type_registry: unsafe { registry.assume_init_ref() } };
+    unsafe { client_event.receive(&mut ctx, PtrMut::from(&mut client_events), &mut server) };
+    // No panic; a message that cannot be decoded is discarded, anything else yields one event.
+    assert!(client_events.len() == if len >= 1 { 1 } else { 0 });
+    assert!(server.receive(0usize).count() == 0);
+    kani::cover!(len == 0, "empty message discarded");
+    kani::cover!(len == 3, "trailing bytes ignored");
+    core::mem::forget((client_events, server, client_event));
+}
